@@ -34,4 +34,26 @@ PROPS = {
     },
 }
 
+PROPS["C02"] = {
+    "lean": ["WsVerif.Props.C02", "WsVerif.Bridge.C02"],
+    "rule": "ws.Cipher on the grid len 0..80 x 12 offsets (0..9, 2^31, 2^62+3) x slice alignment 0..7 x 4 keys (incl. the zero key) "
+            "plus random long payloads; CipherReader under transport chunkings 0..18, caller buffer schedules, EOF / failing transport, "
+            "data arriving together with the error; CipherWriter write sequences with a short destination accept and caller-slice "
+            "snapshots; the six Mask*/Unmask* helpers with before/after snapshots of the caller's payload.",
+    "exhaustive_families": ["cipher (len x offset x alignment grid; thorough tier only, quick samples one third)"],
+    "trusted_base": [
+        "Spec/Cipher.lean (xorSpec): RFC 6455 §5.3 verbatim",
+        "Model/Cipher.lean mirrors cipher.go, wsutil/cipher.go, frame.go Mask*/Unmask* by hand; tied by correspondence "
+        "(cipher/crd/cwr/mf families) and Bridge.C02 (remain table regenerated from source)",
+        "encoding/binary.LittleEndian modelled by contract (little-endian base-256 digits)",
+    ],
+    "assumptions": COMMON_ASSUME + ["offset + len < 2^63 (Go int does not wrap)",
+                                    "aliasing (copy vs in place) is observed by the harness, not proved: the model returns the caller's slice explicitly"],
+    "level_text": "Kernel-checked: ws.Cipher = per-byte XOR with key[(offset+i) mod 4] for every payload, key and offset (byte loop, head, "
+                  "16-byte little-endian word loop — proved lane by lane from Nat.xor div/mod lemmas — and tail), involution, chunk additivity, "
+                  "CipherReader/CipherWriter under every chunking / short write / data-with-EOF, Mask*/Unmask* header fields and copies. "
+                  "Model tied to source by the regenerated `remain` table and ~6k (quick) / ~150k (thorough) differential cases.",
+    "level_note": "Trusted: Lean kernel, xorSpec, correspondence harness; LittleEndian and pbytes pool by contract; offsets below 2^63.",
+}
+
 NOT_APPLICABLE = {}
